@@ -86,6 +86,20 @@ size_t HashBdh::getSize() {
   return mem;
 }
 
+void HashBdh::save(std::ostream &fp) {
+  // Only the used slots are kept in memory: the sequence is expanded again
+  LogSequence *full = new LogSequence(hash->getNumbits(), tsize);
+  for (uint i = 1; i <= n; i++)
+    full->setField(b_ht->select1(i), hash->getField(i - 1));
+
+  saveValue(fp, tsize);
+  saveValue(fp, n);
+  full->save(fp);
+  b_ht->save(fp);
+
+  delete full;
+}
+
 HashBdh *HashBdh::load(std::istream &fp) {
   HashBdh *h_new = new HashBdh();
 
